@@ -2,7 +2,8 @@
     given as (s, from, to) and encoded by the real [New] in the executor, so
     every case ties New and the function under test to the code.  The model
     side runs the int32-faithful New32 / Len32 (Model/Bitstr32.v; equal to New / Len
-    of Model/Bitstr.v whenever toBit + 7 < 2^31 — Proofs/Bitstr32Proofs.v). *)
+    of Model/Bitstr.v on the whole int32 range since the /repo fix b2a771a —
+    Proofs/Bitstr32Proofs.v). *)
 From Coq Require Import ZArith List Bool String.
 From Low Require Import Lib.Bits Lib.BitSeq Lib.Bytes Lib.Lex Lib.Val Lib.Pack_bw Model.Bitstr Model.Bitstr32 Spec.BitstrSpec Spec.BitstrSearchSpec Spec.BitstrDecodeSpec.
 Import ListNotations.
